@@ -573,7 +573,7 @@ pub fn run(case: &Case, ctx: &mut Ctx) -> R {
                 call(e, target, "set_can_transfer", args![e; *v]).map_err(|er| violation("C04/setup/set_can_transfer", er))?;
                 m.ct[k] = *v;
                 m.can_transfer = m.ct[0] && m.ct[1];
-                if m.ct[0] != m.ct[1] {
+                if w.mock2.is_some() && m.ct[0] != m.ct[1] {
                     ctx.class("compliance_modules_disagree");
                 }
                 continue;
